@@ -123,3 +123,5 @@ def rules(ctx):
     from . import common_gauss as _G7, c08 as _c8
     ctx.shared(_G7.footprint, "C07.gauss-footprint")
     ctx.shared(_c8.register_shape, "C07.register-shape")
+    from . import c01 as _c01
+    ctx.shared(_c01.layout, "C07.fock-layout")
